@@ -111,7 +111,12 @@ def extra(tier, seed):
     from pyvc.bounded import run_native
     from contracts.c07c_static import extras as static_extras
     from contracts import m1_static          # round 3 (m1): every local bound before it is read (incl. reads in dropped logger calls)
-    return static_extras(tier, seed) + m1_static.extras('C07') + [
+    # the matrices packaged into the results are fresh arrays of the final evaluation (ownership: shared with C02) and the results
+    # object is not changed by what the BIOGEME object does afterwards
+    from props.C02 import static_fresh_workspaces
+    return static_extras(tier, seed) + m1_static.extras('C07') + static_fresh_workspaces('C07') + [
+            run_native('C07:bounded:results-are-those-of-the-estimates-and-stay-so', 'c07_results_stability.py', [],
+                       bound='logit, 150 observations, 2 algorithms: bootstrap (5 samples) between final evaluation and packaging; later evaluations on the same object'),
             run_native('C07:bounded:wrappers-handover', 'c07c_handover.py', ['all'],
                        bound='8 wrappers x 7 bound lists (None / 0 / -0.0 / negative / positive / one- and two-sided) x parameter dicts (None, {}, each documented key alone '
                              'with a non-default and with a zero / False value, all keys, unknown keys); underlying optimiser spied'),
@@ -119,3 +124,10 @@ def extra(tier, seed):
                        bound='4 bound-supporting algorithms x 6 bound lists mixing None / 0 / negative / positive / one- and two-sided entries; underlying optimiser spied'),
             run_native('C07:bounded:estimation', 'c07_estimation.py', [tier, str(seed)],
                        bound='see the harness bound string: generated concave logit problems x bound configurations x 3 starts x 8 algorithms', timeout=1500)]
+
+REPLAYS['C07:static:calculate_likelihood_and_derivatives:output-arrays-allocated-by-this-call'] = """
+import subprocess, sys
+r = subprocess.run([sys.executable, '/verif/bounded/c07_results_stability.py'], capture_output=True, text=True)
+violated = r.returncode == 1
+detail = (r.stdout + r.stderr)[-1500:]
+"""
